@@ -706,6 +706,18 @@ func (x *Exec) intrinsic(st *State, call *ast.CallExpr, fn *types.Func, qual str
 			c.note("sort.Slice with an unrecognised comparison: slice havocked")
 			return nil, true
 		}
+	case "sort.Strings":
+		// sort.Strings(x): a sorted permutation in place (string order = the abstract total order gs.lt), with the
+		// position witnesses of sortpos.
+		if len(call.Args) == 1 && x.isLvalue(call.Args[0]) {
+			cur := x.expr(st, call.Args[0])
+			if cur.Sort.Kind == KSlice && cur.Sort.Elem.Kind == KStr {
+				x.u.ensureStrOrder()
+				c.note("assumed contract (dependency, unchecked): sort.Strings returns a sorted permutation in place")
+				x.assign(st, call.Args[0], x.sortedPermutation(cur))
+				return nil, true
+			}
+		}
 	case "sort.Sort", "sort.IsSorted":
 		// sort.Sort(Tokens(x)) / sort.IsSorted(Tokens(x)): the named slice type's Less is ascending '<'
 		// (ring.Tokens.Less carries that contract); the conversion shares x's backing array.
@@ -973,7 +985,11 @@ func (x *Exec) sortedPermutation(cur Term) Term {
 	perm := func(a string) string { return fmt.Sprintf("(%s %s %s %s)", fn, ra, ca, a) }
 	inv := func(b string) string { return fmt.Sprintf("(%s %s %s %s)", fn, ca, ra, b) }
 	c.axiom(tEq(c.slLen(r), n))
-	c.axiom(Term{S: fmt.Sprintf("(forall ((a Int) (b Int)) (=> (and (<= 0 a) (< a b) (< b %s)) (<= (select %s a) (select %s b))))", n.S, ra, ra), Sort: sortBool})
+	if cur.Sort.Elem.Kind == KStr {
+		c.axiom(Term{S: fmt.Sprintf("(forall ((a Int) (b Int)) (=> (and (<= 0 a) (< a b) (< b %s)) (not (gs.lt (select %s b) (select %s a)))))", n.S, ra, ra), Sort: sortBool})
+	} else {
+		c.axiom(Term{S: fmt.Sprintf("(forall ((a Int) (b Int)) (=> (and (<= 0 a) (< a b) (< b %s)) (<= (select %s a) (select %s b))))", n.S, ra, ra), Sort: sortBool})
+	}
 	c.axiom(Term{S: fmt.Sprintf("(forall ((a Int)) (! (=> (and (<= 0 a) (< a %s)) (and (<= 0 %s) (< %s %s) (= (select %s a) (select %s %s)) (= %s a))) :pattern ((select %s a)) :pattern (%s)))", n.S, perm("a"), perm("a"), n.S, ra, ca, perm("a"), inv(perm("a")), ra, perm("a")), Sort: sortBool})
 	// every input position is the image of an output position
 	c.axiom(Term{S: fmt.Sprintf("(forall ((b Int)) (! (=> (and (<= 0 b) (< b %s)) (and (<= 0 %s) (< %s %s) (= (select %s b) (select %s %s)) (= %s b))) :pattern ((select %s b)) :pattern (%s)))", n.S, inv("b"), inv("b"), n.S, ca, ra, inv("b"), perm(inv("b")), ca, inv("b")), Sort: sortBool})
